@@ -2,6 +2,7 @@
 # Re-run every seeded change under seeded/Cnn/patchK.diff against the quick check of its property.
 # Writes seeded/RESULTS.tsv: property, patch, exit code, verdict (failing-input | no-failing-input | MISSED), signature
 cd "$(dirname "$0")/.."
+export VERIF_NOSHRINK=1   # the sweep only classifies: failing input / broken obligation only / missed
 out=seeded/RESULTS.tsv
 : > $out
 for d in seeded/C*/; do
